@@ -156,9 +156,11 @@ def M2.one : M2 := ⟨1, 0, 0, 1⟩
 /-- inverse of a determinant-one matrix -/
 def M2.inv (x : M2) : M2 := ⟨x.d, -x.b, -x.c, x.a⟩
 
-/-- generator of the k-th unit time step (time dependent: alternates two non-commuting shears) -/
+/-- generator of the k-th unit time step (constant: one shear, so that entries grow linearly and the
+float inverse the real Propagator takes stays exact to rounding; time dependent: alternates two
+non-commuting shears) -/
 def gen (cte : Bool) (w : Nat) (k : Int) : M2 :=
-  if cte then ⟨2, 1, 1, 1⟩ else if k % 2 = 0 then ⟨1, (w : Int) + 1, 0, 1⟩ else ⟨1, 0, 1, 1⟩
+  if cte then ⟨1, 1, 0, 1⟩ else if k % 2 = 0 then ⟨1, (w : Int) + 1, 0, 1⟩ else ⟨1, 0, 1, 1⟩
 
 /-- G(t) = g_t ⋯ g_1 for t ≥ 0 and g_{t+1}⁻¹ ⋯ g_0⁻¹ for t < 0 -/
 def bigG (cte : Bool) (w : Nat) (t : Int) : M2 :=
